@@ -17,10 +17,28 @@ namespace vh
     std::string run_pool_case(const vj::value&);
     std::string run_adi_case(const vj::value&);
 
+    std::string run_flow_controlled(const vj::value& c, const std::function<std::string()>& body);
+
+    static std::string dispatch_flow(const vj::value& c);
+
     static std::string dispatch(const vj::value& c)
     {
         const std::string kind = c.get_str("kind", "flow");
+        if (kind == "flow" && c.has("ctl"))
+            return run_flow_controlled(c, [&] { return dispatch_flow(c); });
         if (kind == "flow")
+            return dispatch_flow(c);
+        if (kind == "grid")
+            return run_grid_case(c);
+        if (kind == "pool")
+            return run_pool_case(c);
+        if (kind == "adi")
+            return run_adi_case(c);
+        throw std::runtime_error("unknown case kind " + kind);
+    }
+
+    static std::string dispatch_flow(const vj::value& c)
+    {
         {
             const auto& g = c["grid"];
             const std::string t = g["t"].as_str();
@@ -36,13 +54,6 @@ namespace vh
                 return run_flow_bishop(c);
             return cache ? run_flow_queen(c) : run_flow_queen_nc(c);
         }
-        if (kind == "grid")
-            return run_grid_case(c);
-        if (kind == "pool")
-            return run_pool_case(c);
-        if (kind == "adi")
-            return run_adi_case(c);
-        throw std::runtime_error("unknown case kind " + kind);
     }
 }
 
